@@ -32,6 +32,18 @@ CLAIMED = {
          "hook faults symbolic) and on a stage-2 kernel with symbolic step statuses; printed numbers are parsed back and compared "
          "with a direct census of the model", "DESIGN.md 4/C14",
          "symbolic execution of real code + z3 (path space by solver, per-path numeric comparison)"),
+ "C07": ("the real v2 parser/evaluator (behave extensions + instrumented cucumber model classes) evaluates each enumerated expression "
+         "(trees x renderings) on a symbolic tag set (14 z3 Booleans); the result of every evaluation trace is compared with the "
+         "tree's Boolean formula by the solver, likewise after print->parse and after {config.tags} substitution", "DESIGN.md 4/C07",
+         "symbolic execution of real code + z3 (symbolic tag set, complete truth tables by solver)"),
+ "C08": ("v1 TagExpression and the auto-detection heuristics executed on symbolic tag sets for CNF texts with every prefix/limit "
+         "combination (argument list and single string, protocols v1/auto), v2 renderings under auto_detect, and mixed texts that must "
+         "raise TagExpressionError", "DESIGN.md 4/C08",
+         "symbolic execution of real code + z3 (symbolic tag set; texts enumerated by solver-driven choice)"),
+ "C09": ("real runs (ModelRunner) with the REAL tag expression evaluated on symbolic tag presence per element x tag: behave's own "
+         "effective_tags inheritance feeds a symbolic tag set; per scenario the selection decision, statuses, call log and hooks are "
+         "checked against the expression's formula over own+inherited presence Booleans", "DESIGN.md 4/C09",
+         "symbolic execution of real code + z3 (tag presence symbolic, bounded trees and expression pool)"),
 }
 NA_REASON = "check not built yet in this round (planned, see DESIGN.md section 4)"
 checks = []
